@@ -79,7 +79,7 @@ def bars_of(ax):
     return out
 
 
-def check_bars(ctx, ax, hist, jobs, when):
+def check_bars(ctx, ax, hist, jobs, when, lab=lambda j: f"Job {j}"):
     """hist: model history entries (j, p, m, s, e) that must be drawn.  The
     legend is the key: every bar must carry the legend colour of its job."""
     bars = bars_of(ax)
@@ -93,8 +93,8 @@ def check_bars(ctx, ax, hist, jobs, when):
     labels = [t.get_text() for t in leg.get_texts()] if leg else []
     handles = [tuple(round(float(x), 6) for x in h.get_facecolor()) for h in leg.legend_handles] if leg else []
     jobs_present = sorted({h[0] for h in hist})
-    ctx.check(labels == [f"Job {j}" for j in jobs_present], "legend_lists_jobs_present", lambda: f"{when}: legend labels {labels}, jobs drawn {jobs_present}")
-    if labels != [f"Job {j}" for j in jobs_present]:
+    ctx.check(labels == [lab(j) for j in jobs_present], "legend_lists_jobs_present", lambda: f"{when}: legend labels {labels}, jobs drawn {jobs_present}")
+    if labels != [lab(j) for j in jobs_present]:
         return
     colour = dict(zip(jobs_present, handles))
     ctx.check(len(set(handles)) == len(handles), "colour_identifies_job", lambda: f"{when}: legend colours are not distinct: {colour}")
@@ -144,10 +144,20 @@ def execute_chart(case, ctx):
 
             xlim = np.int64(xlim)  # e.g. np.max over several makespans for a shared axis
             ctx.probe("numpy_xlim")
+    # custom legend labels (public parameter), derived from the case without an extra PRNG draw
+    use_labels = cfg.get("job_labels", (len(case["ops"]) + len(jobs)) % 3 == 0)
+    job_labels = [f"order <{j}>" for j in range(len(jobs))] if use_labels else None
+    lab = (lambda j: job_labels[j]) if use_labels else (lambda j: f"Job {j}")
     with warnings.catch_warnings():
         warnings.simplefilter("ignore")
         try:
-            fig, ax = plot_gantt_chart(d.schedule, xlim=xlim, cmap_name=cfg["cmap"])
+            if job_labels is not None:
+                fig, ax = plot_gantt_chart(d.schedule, xlim=xlim, cmap_name=cfg["cmap"], job_labels=job_labels)
+                ctx.probe("custom_job_labels")
+                if m.hist and min(h[0] for h in m.hist) > 0:
+                    ctx.probe("custom_job_labels_lowest_job_absent")
+            else:
+                fig, ax = plot_gantt_chart(d.schedule, xlim=xlim, cmap_name=cfg["cmap"])
         except Exception as e:  # noqa: BLE001
             ctx.fail("plot_raised", f"plot_gantt_chart raised {short_exc(e)} on a schedule with {len(m.hist)} operations, makespan {mk}")
             return
@@ -160,7 +170,7 @@ def execute_chart(case, ctx):
             check_bars(ctx, ax2, other[1].hist, jobs, f"second chart ({len(other[1].hist)} dispatches) drawn while the first is open")
             ctx.probe("two_charts_alive")
         when = f"plot_gantt_chart after {len(m.hist)} dispatches (xlim={xlim})" + (" re-read after a second chart was drawn" if other else "")
-        check_bars(ctx, ax, m.hist, jobs, when)
+        check_bars(ctx, ax, m.hist, jobs, when + (" with job_labels" if use_labels else ""), lab)
         end = xlim if xlim is not None else mk
         if end > 0:
             ctx.check(tuple(ax.get_xlim()) == (0.0, float(end)), "axis_ends_at_makespan_or_limit", lambda: f"{when}: x-limits {ax.get_xlim()}, expected (0, {end})")
